@@ -15,7 +15,7 @@ MANIFEST = dict(
     text='Theorems (props/C02.v, all closed under the global context): the one-piece four-point detector model reports exactly '
          'fp_spec (textbook four-point stack rule) on first sample + interior reversals + last sample (fourpoint_is_textbook, unbounded, via a '
          'refinement of the position/fuel kernel to an item-level stack machine); the FKM detector model equals the HCM case list on the '
-         'interior reversals (fkm_is_hcm, unbounded); conservation of turning points for 4-point and FKM (Permutation, unbounded); every '
+         'interior reversals (fkm_is_hcm, unbounded); conservation of turning points for 4-point, 3-point and FKM (Permutation, unbounded); every '
          'index reported by the four-point AND the three-point detector addresses the reported value (unbounded, from a scanner invariant and position-range invariants); residual irreducible; three-point = four-point '
          '(same multiset of cycles incl. indices, same residual) proved bounded ({0..3}, length <= 8, vm_compute), the general McInnes-Meehan '
          'statement kept as a Definition.  Implementation output is compared with the verified specs inside Coq on every run.',
